@@ -141,6 +141,11 @@ def mk(rng, interleave, nparts):
             for _ in range(L):
                 i += 1
                 rows.append({"id": i, "ts": i, "g": pvals[pn], "v": rng.choice([0, 1, 1, 2, 3, 2])})
+    if rng.random() < 0.3:        # heterogeneous events: some carry no v at all (a status message): for them no condition over v is true
+        for r in rows:
+            if rng.random() < 0.3:
+                del r["v"]
+                r["status"] = "alive"
     meta = {"fam": "cep", "pat": pat, "defs": defs, "skip": skip, "part": part}
     return {"meta": meta, "sql": sql, "rows": rows, "stop": True}
 
